@@ -33,6 +33,34 @@ CHECKS = {
         note=TB + '; the aggregate methods are element-wise filters proved for list lengths 0..3, not by induction',
         technique='contract-based deductive verification: VCs from the Python AST, callee contracts as hooks, z3/cvc5',
         design_ref='6 (C17)'),
+    'C01': dict(
+        category='proof',
+        text='PGPSignature.hashdata is executed from the real source for every signature type x subject class (30 scenarios, subject / key '
+             'body / uid body / hashed area symbolic) and proved equal to the RFC 4880 5.2.4 layout; injectivity of that layout is proved by '
+             'peeling lemmas; the per-algorithm verify glue (RSA/DSA/ECDSA/EdDSA: what reaches the external verifier, verdict mapping), '
+             'PubKeyV4.verify and the verdict block of PGPKey.verify are proved with callee contracts. The property follows under the named '
+             'cryptographic hypothesis (EUF-CMA, collision resistance), which is not proved.',
+        note=TB + '; cryptography/hashlib are uninterpreted externals; a bounded native bit-flip/substitution complement is listed under bounded_components',
+        technique='contract-based deductive verification: VCs from the Python AST against RFC 4880 5.2.4 spec terms, callee contracts as hooks, '
+                  'z3/cvc5; bounded native mutation complement',
+        design_ref='6 (C01)'),
+    'C05': dict(
+        category='proof',
+        text='SubPackets.parse is verified with two loop invariants (buffer is a suffix of the received octets; variant) against the callee '
+             'contract of the subpacket dispatcher: on every normal return the kept hashed area equals the received octets [0, 2+hl) and the '
+             'subpackets tiled it exactly; __hashbytearray__ returns it verbatim, __copy__ preserves it, adding a hashed subpacket drops it; the '
+             'trailer block of hashdata (C01 scenarios) hashes exactly those octets; injectivity lemma gives bit-flip sensitivity.',
+        note=TB + '; dispatcher contract (consumes >= 1 octet in place or raises) is assumed here',
+        technique='contract-based deductive verification with inductive loop invariants; z3/cvc5',
+        design_ref='6 (C05)'),
+    'C18': dict(
+        category='proof',
+        text='PubKeyV4.fingerprint is proved to hash 0x99 || be16(6+publen) || 04 || be32(epoch of the instant) || alg || public material, '
+             'PubKeyV4.__bytearray__ to export the same body, publen() to be the length of the public MPI prefix of __bytearray__() for '
+             'RSA/DSA/ElGamal public and secret (protected/unprotected) material, keyid/shortid to be the low 64/32 bits.',
+        note=TB + '; EC materials (pyasn1 OID) and whole-history stability are bounded components',
+        technique='contract-based deductive verification: VCs from the Python AST, externals uninterpreted; z3/cvc5',
+        design_ref='6 (C18)'),
 }
 
 PENDING_REASON = 'check under construction in this session: no contract-based check is registered yet (see DESIGN.md section 6 for the plan)'
